@@ -207,6 +207,7 @@ class Net(object):
         self.gens.append(gen)
         self.view[x][y] = gen
         self.stats['connects'] += 1
+        self.sim.notified[x].add(y)
         self.sim.call(x, self.transports[x]._onNodeConnected, self.sim.node_obj(y))
         return True
 
@@ -241,6 +242,7 @@ class Net(object):
                 gen.ro_node = Node(nid)
                 self.sim.call(to, tr._onReadonlyNodeConnected, gen.ro_node)
             else:
+                self.sim.notified[to].add(frm)
                 self.sim.call(to, tr._onNodeConnected, self.sim.node_obj(frm))
             return True
         msg = ppickle.loads(m)
@@ -281,6 +283,7 @@ class Net(object):
                 tr.readonly.discard(gen.ro_node)
                 self.sim.call(x, tr._onReadonlyNodeDisconnected, gen.ro_node)
             else:
+                self.sim.notified[x].discard(y)
                 self.sim.call(x, tr._onNodeDisconnected, self.sim.node_obj(y))
         return True
 
